@@ -19,7 +19,7 @@ func checkC12(c *Ctx) error {
 	c.Level = "other"
 	maxK, maxLen := 3, 4
 	if c.Thorough() {
-		maxK, maxLen = 4, 6
+		maxK, maxLen = 4, 5
 	} else if c.KernelSolver == "" {
 		c.KernelSolver = "race:cvc5"
 	}
@@ -45,11 +45,11 @@ func checkC12(c *Ctx) error {
 	// generator requests them (InjectorParam.Name / ChannelName), whatever allocator entry
 	// points those use
 	// (each awaited value contributes two outputs, so histories are one shorter than above and,
-	// in the thorough tier, names stay at length <= 5: the queries of length-8 names over
+	// in the thorough tier, names stay at length <= 4: the queries of length-8 names over
 	// 6 outputs took up to a minute each)
 	pk, pLen := maxK-1, maxLen
-	if pLen > 5 {
-		pLen = 5
+	if pLen > 4 {
+		pLen = 4
 	}
 	if v := os.Getenv("VERIF_PARAMK"); v != "" {
 		fmt.Sscan(v, &pk)
